@@ -1,7 +1,9 @@
 SPECIFICATION Spec
 CONSTANT Variant = "strip_ws"
 CONSTANT MaxLen = 1
-CONSTANT PairSlice = 1
+CONSTANT PairCoreSlice = 0
+CONSTANT PairNewSlice = 0
+CONSTANT Wide = FALSE
 CONSTANT TripleSlice = 0
 CONSTANT RawMax = 0
 CONSTANT DoEmit = FALSE
